@@ -117,10 +117,14 @@ def handleBindC (locl reply a b ajid bjid : String) : Option String := do
     | some s => if s.isEmpty then "EMPTY" else hx s
   pure s!"{req} {res.err.toString} {hx res.addr} {showBool res.ready}"
 
-def handleBindS (s2s remote reqid reqres cb a cbjid : String) : Option String := do
+def reqAddr (f : String) : Option Bind.JidField :=
+  if f == "-" then some .absent else if f == "!" then some .invalid else (txt f).map .valid
+
+def handleBindS (s2s remote reqid reqres cb a cbjid rto rfrom : String) : Option String := do
   let _ ← parseBool s2s
   let remote ← txt remote; let reqid ← txt reqid; let a ← txt a
   let reqres ← if reqres == "NONE" then some none else (txt reqres).map some
+  let rto ← reqAddr rto; let rfrom ← reqAddr rfrom
   let c : Bind.Callback ← match cb with
     | "nil" => some .default
     | "jid" => if cbjid == "!" then some .failure else (txt cbjid).map .address
@@ -128,19 +132,22 @@ def handleBindS (s2s remote reqid reqres cb a cbjid : String) : Option String :=
     | "serr" => some (.stanzaError a)
     | "err" => some .failure
     | _ => none
-  let r := Bind.server remote reqid reqres c
+  let r := Bind.server remote reqid reqres rto rfrom c
   let args := match r.cbArgs with
     | none => "-"
     | some (j, res) => s!"{hx j}/{hx res}"
   let head := match r.reply with
     | none => "NOREPLY - - -"
-    | some (t, id, asg, cond) =>
-      let j := match asg with
+    | some q =>
+      let j := match q.assigned with
         | none => "-"
         | some .random => "RND"
         | some (.jid j) => hx j
-      s!"{t} {hx id} {j} {cond.getD "-"}"
-  pure s!"{head} {r.err.getD "nil"} {showBool r.ready} {args}"
+      s!"{q.type} {hx q.id} {j} {q.cond.getD "-"}"
+  let tail := match r.reply with
+    | none => "- -"
+    | some q => s!"{hx q.to} {hx q.src}"
+  pure s!"{head} {r.err.getD "nil"} {showBool r.ready} {args} {tail}"
 
 def handle (args : List String) : Option String :=
   match args with
@@ -149,7 +156,8 @@ def handle (args : List String) : Option String :=
   | "nege" :: role :: ws :: s2s :: loc :: orig :: jids :: tee :: budget :: cancel :: hdrs =>
     handleNeg role ws s2s loc orig jids (some (tee, budget, cancel)) hdrs
   | ["bindc", locl, reply, a, b, ajid, bjid] => handleBindC locl reply a b ajid bjid
-  | ["binds", s2s, remote, reqid, reqres, cb, a, cbjid] => handleBindS s2s remote reqid reqres cb a cbjid
+  | ["binds", s2s, remote, reqid, reqres, cb, a, cbjid, rto, rfrom] =>
+    handleBindS s2s remote reqid reqres cb a cbjid rto rfrom
   | _ => none
 
 end XmppModel.Driver.C12
